@@ -29,7 +29,7 @@ class RMA(Indicator):
             )
 
         if self.reading_period(self.period, self.input_value):
-            period_to = index - self.period if index >= (self.period + 1) else -1
+            period_to = index - self.period
 
             # numpy ewm adjusted calc
             values = sum(
@@ -37,7 +37,7 @@ class RMA(Indicator):
                 for py, i in enumerate(range(index, period_to, -1))
             )
 
-            divide_by = sum((1 - alpha) ** i for py, i in enumerate(range(index, period_to, -1)))
+            divide_by = sum((1 - alpha) ** py for py, i in enumerate(range(index, period_to, -1)))
 
             return values / divide_by
 
